@@ -14,7 +14,10 @@ class OrderImports(SimpleCodemod, UtilsMixin):
         name="order-imports",
         summary="Order Imports",
         review_guidance=ReviewGuidance.MERGE_WITHOUT_REVIEW,
-        description="",
+        description=(
+            "Sorts the import blocks at the top of a module and groups them into "
+            "standard library, third party and first party imports."
+        ),
     )
     change_description = "Ordered and formatted import block below this line"
 
